@@ -14,7 +14,7 @@ import (
 	"verif/harness/ev"
 )
 
-const rule = "cases = (destination kinds {plain io.Writer, LevelWriter, FilteredLevelWriter(level)} x events with levels x per (destination,event) outcome {ok, error_i, short write}); exhaustive for <=3 destinations x <=2 events (<=3 in thorough) over 3 kinds, 3 levels, 3 outcomes; rapid for up to 8 destinations, 30 events, nested MultiLevelWriter; also a single failing writer without MultiLevelWriter. oracle = fan-out model + ErrorHandler log. non-trivial = at least one failing destination that is not the last one; distinct by construction / FNV-64"
+const rule = "cases = (destination kinds {plain io.Writer, LevelWriter, FilteredLevelWriter(level)} x events with levels x per (destination,event) outcome {ok, error_i, short write}); exhaustive for <=3 destinations x <=2 events (<=3 in thorough) over 3 kinds, 3 levels, 3 outcomes; rapid for up to 8 destinations, 30 events, nested MultiLevelWriter; also a single failing writer without MultiLevelWriter, and an ErrorHandler that itself logs through a failing audit logger (each failed event, the audit event included, gets its own report). oracle = fan-out model + ErrorHandler log. non-trivial = at least one failing destination that is not the last one; distinct by construction / FNV-64"
 
 var rec = ev.New("C14", rule)
 
@@ -38,7 +38,16 @@ type Case struct {
 	// Direct: the fan-out is used as a plain io.Writer (Write, no level), e.g. behind the standard
 	// library logger: every destination, filtered or not, receives every line
 	Direct bool `json:"direct_write,omitempty"`
+	// HandlerLogs: the ErrorHandler itself logs ("write failed") through an audit logger whose
+	// destination fails too: that event is a failed event of its own and gets its own report
+	HandlerLogs bool `json:"handler_logs,omitempty"`
 }
+
+var errAudit = errors.New("audit destination down")
+
+type auditW struct{}
+
+func (auditW) Write(p []byte) (int, error) { return 0, errAudit }
 
 type got struct {
 	level int
@@ -125,7 +134,15 @@ func run(c *Case) (msg string, nontrivial bool) {
 	ws := build(c.Dests, c.Outcomes, &leaves, &filters, nil)
 	var handled []error
 	old := zerolog.ErrorHandler
-	zerolog.ErrorHandler = func(err error) { handled = append(handled, err) }
+	audit, depth := zerolog.New(auditW{}), 0
+	zerolog.ErrorHandler = func(err error) {
+		handled = append(handled, err)
+		if c.HandlerLogs && depth == 0 {
+			depth++
+			audit.Error().Msg("write failed")
+			depth--
+		}
+	}
 	defer func() { zerolog.ErrorHandler = old }()
 	var l zerolog.Logger
 	if c.Single {
@@ -206,7 +223,11 @@ func run(c *Case) (msg string, nontrivial bool) {
 		if firstErr == nil && len(handled) != 0 {
 			return fmt.Sprintf("event %d: ErrorHandler called %d times (%v) although no destination failed", ei, len(handled), handled), nontrivial
 		}
-		if firstErr != nil && (len(handled) != 1 || handled[0] != firstErr) {
+		if firstErr != nil && c.HandlerLogs {
+			if len(handled) != 2 || handled[0] != firstErr || handled[1] != errAudit {
+				return fmt.Sprintf("event %d: ErrorHandler calls %v, want [%v %v]: one for the event and one for the audit event the handler logged through a failing logger", ei, handled, firstErr, errAudit), nontrivial
+			}
+		} else if firstErr != nil && (len(handled) != 1 || handled[0] != firstErr) {
 			return fmt.Sprintf("event %d: ErrorHandler calls %v, want exactly one with %v (the first failing destination)", ei, handled, firstErr), nontrivial
 		}
 	}
@@ -275,6 +296,7 @@ func TestExhaustive(t *testing.T) {
 							}
 							c.Outcomes = append(c.Outcomes, row)
 						}
+						c.HandlerLogs = oi%2 == 1 // every other outcome matrix runs with a handler that logs
 						msg, ntv := run(c)
 						n++
 						if ntv {
@@ -353,6 +375,7 @@ func TestRapid(t *testing.T) {
 		} else if rapid.IntRange(0, 4).Draw(rt, "direct") == 0 {
 			c.Direct = true
 		}
+		c.HandlerLogs = !c.Direct && rapid.IntRange(0, 3).Draw(rt, "handlerlogs") == 0
 		// nested multi writers report short writes of inner destinations as ErrShortWrite too; the
 		// "first failing destination" is in depth-first order, which the flat model reproduces
 		msg, nt := run(c)
